@@ -28,6 +28,10 @@ import (
 	"go.uber.org/mock/gomock"
 
 	metav1 "k8s.io/apimachinery/pkg/apis/meta/v1"
+	"k8s.io/apimachinery/pkg/types"
+
+	enginev2alpha2 "github.com/NVIDIA/KAI-scheduler/pkg/apis/scheduling/v2alpha2"
+	commonconstants "github.com/NVIDIA/KAI-scheduler/pkg/common/constants"
 
 	"github.com/NVIDIA/KAI-scheduler/pkg/scheduler/actions/utils"
 	"github.com/NVIDIA/KAI-scheduler/pkg/scheduler/api"
@@ -57,6 +61,77 @@ type jobSpec struct {
 	Shape int
 	Pre   int     // PodGroupInfo.Preemptibility as it is supposed to be: 0 unset, 1 preemptible, 2 non-preemptible
 	Req   []int64 // request of the tasks to allocate (cpu, memory, gpu), thousandths; allocate runs only
+	// PodGroupInfo.LastStartTimestamp, seconds after the base time (may be negative); HasLS false = nil.
+	// Given through the real PodGroupInfo.SetPodGroup (annotation kai.scheduler/last-start-timestamp).
+	HasLS bool
+	LS    int64
+}
+
+// last-start states, drawn independently of everything else (own PRNG stream): never started; stamped before the
+// job's own creation (clock skew between the scheduler and the API server); stamped a few seconds after its own
+// creation, i.e. between the creation times of the jobs it competes with; stamped long after every creation time.
+const (
+	lsNone = iota
+	lsBeforeCreation
+	lsAmongCreations
+	lsAfterAll
+)
+
+var lsName = []string{"none", "before-creation", "among-creations", "after-all"}
+
+func drawLS(r *u.Rng, ctime int64) (bool, int64, int) {
+	switch k := r.Intn(8); {
+	case k < 3:
+		return false, 0, lsNone
+	case k < 4:
+		return true, ctime - int64(r.Range(1, 3)), lsBeforeCreation
+	case k < 6:
+		return true, ctime + int64(r.Range(1, 7)), lsAmongCreations
+	default:
+		return true, 100000 + int64(r.Intn(3)), lsAfterAll
+	}
+}
+
+// lsRng is the last-start stream of the program being generated (nil: no stamps)
+var lsRng *u.Rng
+
+// lsAnnotation is what status_updater.setPodGroupLastStartTimeStamp writes
+func lsAnnotation(ls int64) string {
+	return baseTime.Add(time.Duration(ls) * time.Second).UTC().Format(time.RFC3339)
+}
+
+func lsTerm(has bool, ls int64) string { return u.Opt(has, u.Z(ls)) }
+
+func (j jobSpec) lsShort() string {
+	if !j.HasLS {
+		return ""
+	}
+	return fmt.Sprintf(":ls%d", j.LS)
+}
+
+// countLS records the last-start coverage of one job of a stream
+func countLS(out *u.Out, stream string, j jobSpec) {
+	alloc := 0
+	for _, s := range j.Sub {
+		alloc += s[0]
+	}
+	state := "pending"
+	if alloc > 0 {
+		state = "with-running-pods"
+	}
+	kind := "none"
+	switch {
+	case !j.HasLS:
+	case j.LS < j.CTime:
+		kind = "before-creation"
+	case j.LS == j.CTime:
+		kind = "at-creation"
+	case j.LS >= 50000:
+		kind = "after-all"
+	default:
+		kind = "among-creations"
+	}
+	out.Count(fmt.Sprintf("%s-last-start:%s:%s", stream, kind, state))
 }
 
 var preTerm = []string{"PUnset", "PPreemptible", "PNonPreemptible"}
@@ -77,9 +152,9 @@ func (j jobSpec) term() string {
 	for i, s := range j.Sub {
 		subs[i] = u.Pair(u.Z(int64(s[0])), u.Z(int64(s[1])))
 	}
-	return fmt.Sprintf("{| j_uid := %s; j_queue := %s; j_prio := %s; j_subgroups := %s; j_ctime := %s; j_shape := %s; j_pre := %s; j_req := %s |}",
+	return fmt.Sprintf("{| j_uid := %s; j_queue := %s; j_prio := %s; j_subgroups := %s; j_ctime := %s; j_shape := %s; j_pre := %s; j_req := %s; j_last_start := %s |}",
 		u.Z(int64(j.UID)), u.Z(int64(j.Queue)), u.Z(int64(j.Prio)), u.List(subs), u.Z(j.CTime), u.Z(int64(j.Shape)),
-		preTerm[j.Pre], u.ListOf(j.Req, u.Z))
+		preTerm[j.Pre], u.ListOf(j.Req, u.Z), lsTerm(j.HasLS, j.LS))
 }
 
 func (j jobSpec) short() string {
@@ -87,7 +162,7 @@ func (j jobSpec) short() string {
 	for i, s := range j.Sub {
 		subs[i] = fmt.Sprintf("%d/%d", s[0], s[1])
 	}
-	return fmt.Sprintf("u%d:q%d:p%d:t%d:[%s]", j.UID, j.Queue, j.Prio, j.CTime, strings.Join(subs, ","))
+	return fmt.Sprintf("u%d:q%d:p%d:t%d%s:[%s]", j.UID, j.Queue, j.Prio, j.CTime, j.lsShort(), strings.Join(subs, ","))
 }
 
 func (q queueSpec) term() string {
@@ -113,7 +188,7 @@ func (j jobSpec) build() *podgroup_info.PodGroupInfo {
 		}
 		podSets[name] = subgroup_info.NewPodSet(name, int32(s[1]), nil).WithPodInfos(pods)
 	}
-	return &podgroup_info.PodGroupInfo{
+	info := &podgroup_info.PodGroupInfo{
 		UID:               common_info.PodGroupID(uidStr(j.UID)),
 		Name:              uidStr(j.UID),
 		Queue:             common_info.QueueID(queueStr(j.Queue)),
@@ -121,6 +196,21 @@ func (j jobSpec) build() *podgroup_info.PodGroupInfo {
 		CreationTimestamp: metav1.Time{Time: baseTime.Add(time.Duration(j.CTime) * time.Second)},
 		PodSets:           podSets,
 	}
+	if j.HasLS {
+		// the job's history, the way the cluster snapshot restores it: the real SetPodGroup reads the annotation
+		// the status updater wrote when the job was started (it also re-reads name, queue and creation time
+		// from the PodGroup; the pod sets sg0.. are not the default sub group and stay as built)
+		pg := &enginev2alpha2.PodGroup{
+			ObjectMeta: metav1.ObjectMeta{Name: uidStr(j.UID), UID: types.UID(uidStr(j.UID)), CreationTimestamp: info.CreationTimestamp,
+				Annotations: map[string]string{commonconstants.LastStartTimeStamp: lsAnnotation(j.LS)}},
+			Spec: enginev2alpha2.PodGroupSpec{Queue: queueStr(j.Queue)},
+		}
+		info.SetPodGroup(pg)
+		if info.LastStartTimestamp == nil || info.LastStartTimestamp.Unix() != baseTime.Unix()+j.LS {
+			panic(fmt.Sprintf("harness: SetPodGroup did not restore the last-start stamp of %s", uidStr(j.UID)))
+		}
+	}
+	return info
 }
 
 func uidOf(job *podgroup_info.PodGroupInfo) int {
@@ -303,6 +393,9 @@ func genJob(r *u.Rng, uid, queue int, elasticStates bool) jobSpec {
 		}
 		j.Sub = append(j.Sub, [2]int{alloc, min})
 	}
+	if lsRng != nil {
+		j.HasLS, j.LS, _ = drawLS(lsRng, j.CTime)
+	}
 	return j
 }
 
@@ -358,6 +451,7 @@ func emitPQ(out *u.Out, origin string, maxSize int, ops []pqOp, obs []obsv) {
 		shorts[i] = o.short()
 		if o.Kind == "push" {
 			npush++
+			countLS(out, "pq", o.Job)
 		}
 		if o.Kind == "pop" {
 			npop++
@@ -555,6 +649,7 @@ func emitJO(out *u.Out, origin string, queues []queueSpec, depth int, ops []joOp
 		shorts[i] = o.short()
 		if o.Push {
 			npush++
+			countLS(out, "jo", o.Job)
 			perQueue[o.Job.Queue]++
 		} else {
 			npop++
@@ -609,7 +704,9 @@ func Run(dir string, seed uint64, n int, tier string) error {
 		if len(PickPrios(r)) == len(widePrios) {
 			out.Count("pq:wide-priorities")
 		}
+		lsRng = root.Fork(uint64(4000000 + i))
 		ops, obs := pqProgram(r, depth)
+		lsRng = nil
 		emitPQ(out, fmt.Sprintf("gen#%d", i), depth, ops, obs)
 	}
 	for i := 0; i < nJO; i++ {
@@ -645,7 +742,9 @@ func Run(dir string, seed uint64, n int, tier string) error {
 				out.Count("jo:orphan-parent")
 			}
 		}
+		lsRng = root.Fork(uint64(5000000 + i))
 		ops := joProgram(r, queues)
+		lsRng = nil
 		obs := RunJO(queues, depth, ops)
 		emitJO(out, origin, queues, depth, ops, obs)
 	}
@@ -725,6 +824,26 @@ func Run(dir string, seed uint64, n int, tier string) error {
 			ghost(7, ghostMissing, 9001, 100, 0, "other-ns"), ghost(8, ghostMissing, 9001, 50, 4, ""), ghost(9, ghostNonLeaf, 1001, 60, 2, "team-a")}}
 	addTask("corpus:two-queues-three-ghosts", mc, inf, 8)
 	addTask("corpus:two-queues-three-ghosts", mc, 2, 8)
+	// corpus: last-start stamps. The README world of seeded/C16-5: one 1-GPU node; leaf queue 1 holds `older`
+	// (created at 0, started at 1800 - after `younger` was created -, lost its pods, pending again) and the identical
+	// `younger` (created at 900, never started); a job of queue 2 competes in the same cycle. FIFO: `older` first.
+	// Mirrors: the stamp on the younger job (after both creations, resp. before its own: clock skew), stamps on both
+	// in reversed order, a stamped running job of the queue next to them, and the priority variant.
+	stamped := func(j alJob, at int64) alJob { j.HasLS, j.LS = true, at; return j }
+	twoQ := func(jobs ...alJob) cluster {
+		return cluster{Nodes: []int{1}, Depts: oneDept, Queues: []alQueue{leafQ(1, 1), leafQ(2, 1)}, Templates: oneGPU, Jobs: jobs}
+	}
+	other := alJob{UID: 3, Queue: 2, Prio: 50, Age: 600}
+	addTask("corpus:readme-requeued-older-vs-fresh-younger", twoQ(stamped(old, 1800), alJob{UID: 2, Queue: 1, Prio: 50, Age: 900}, other), inf, 3)
+	addTask("corpus:readme-requeued-older-vs-fresh-younger", twoQ(stamped(old, 1800), alJob{UID: 2, Queue: 1, Prio: 50, Age: 900}, other), 1, 2)
+	addTask("corpus:fresh-older-vs-requeued-younger", twoQ(old, stamped(alJob{UID: 2, Queue: 1, Prio: 50, Age: 900}, 1800), other), inf, 2)
+	addTask("corpus:fresh-older-vs-skewed-younger", twoQ(old, stamped(alJob{UID: 2, Queue: 1, Prio: 50, Age: 900}, -30), stamped(other, 5)), inf, 2)
+	addTask("corpus:both-requeued-stamps-reversed", twoQ(stamped(old, 1800), stamped(alJob{UID: 2, Queue: 1, Prio: 50, Age: 900}, 1000), other), inf, 2)
+	addTask("corpus:requeued-low-vs-fresh-high", twoQ(stamped(low, 1), high, stamped(other, 100000)), inf, 2)
+	rc := cluster{Nodes: []int{2}, Depts: oneDept, Queues: []alQueue{leafQ(1, 1), leafQ(2, 1)}, Templates: oneGPU,
+		Jobs: []alJob{stamped(old, 1800), {UID: 2, Queue: 1, Prio: 50, Age: 900}, other,
+			stamped(alJob{UID: 501, Queue: 1, Prio: 50, Template: -1, Running: "node0", RunGPUs: 1, Age: 3}, 1700)}}
+	addTask("corpus:requeued-older-next-to-stamped-running-job", rc, inf, 2)
 
 	for i := 0; i < nAL; i++ {
 		r := root.Fork(uint64(2000000 + i))
@@ -745,6 +864,8 @@ func Run(dir string, seed uint64, n int, tier string) error {
 			addGhosts(g, &c, pool)
 			rounds = g.Range(2, 3)
 		}
+		// every job, independently of everything else (own stream): a last-start state
+		addLastStarts(root.Fork(uint64(6000000+i)), &c)
 		addTask(fmt.Sprintf("gen#%d", i), c, depth, rounds)
 	}
 	al := newAllocRunner() // initialises the scheduler's registries once; its controller is not used by the workers
@@ -781,7 +902,7 @@ func Run(dir string, seed uint64, n int, tier string) error {
 	if al.reporter.failed > 0 {
 		out.Stats["gomock_reports"] = al.reporter.failed
 	}
-	out.Stats["rule"] = "one splitmix64 stream; after a fixed corpus (ties, elastic states, depth 0/1/2 witnesses; allocate: the depth-2 witness, and three clusters where two identical pending jobs that say preemptible, priority 125/100/99 and 50, compete for the last GPU of a queue whose quota a running non-preemptible job has taken): 40% PriorityQueue programs (push/pop/Fix(i)/re-prioritise-top+Fix(0), 4-36 ops then drained), 45% JobsOrderByQueues programs (2-6 leaf queues on 1-3 levels, 3-24 initial pushes, then pops / pushes / re-pushes with progress, then drained), 15% real allocate runs: 1-4 nodes of 2-8 GPUs, 1-2 departments (one in three with a GPU quota, one in four with a limit), 2-6 leaf queues with GPU quotas 0..half the cluster, one in three with a GPU limit at or just above its usage, some with cpu quotas / limits; running jobs first: in two of three queues non-preemptible running jobs use the queue's GPU quota fully (2 in 5), minus one, plus one or partly, plus preemptible running jobs over quota, at least a third of the cluster left free; 4-28 pending whole-GPU gang jobs from 2-3 templates, half of them in one hot queue and most of those of one template and one preemptibility; every job (running or pending) has spec.preemptibility preemptible / non-preemptible / unset, drawn independently of its priority (unset only when the priority alone gives the wanted preemptibility), so explicit-preemptible jobs at or above 100 and explicit-non-preemptible jobs below 100 are as frequent as the derived ones; priorities from {40,50,60,75,99,100,125} or, one in four, from the whole int32 range of a PriorityClass value (-2^31 .. 2^31-1, system classes included) plus 99 and 100; PQ/JO programs draw from {40,50,60,75,100,125} or the int32 range; every 4th queue program and every 5th allocate run uses a finite depth (label prefix finite-depth; checked like all others); a third of the generated allocate worlds carry 1-3 ghosts (ready pending pod groups, any namespace / priority / age / template: 3 in 5 of a queue that is not in the snapshot, 1 in 5 of a queue whose department is taken out of the session's queue map after the plugins opened, 1 in 5 of a department) and are run on 2-3 fresh sessions each (one case per round); corpus ghost worlds: the README world of seeded/C16-4 (one 1-GPU node, leaf queue with low/high resp. young/old, one ghost of a missing queue) 24 rounds per variant plus a 4-round control, and six more worlds (ghost in another namespace with top priority, two ghosts, ghost of a department, ghost of an orphan queue, two competing queues with three ghosts at unlimited depth and depth 2) 8 rounds each; every allocate run records what the real InitializeWithJobs + PopNextJob hand out and which jobs the action attempts, in order; comparable = same leaf queue, template, request and supposed preemptibility (explicit value, else derived from the priority as CalculatePreemptibility does; never PodGroupInfo.IsPreemptibleJob); non-trivial = PQ: >=3 pushes and >=2 pops; JO: jobs in >=2 queues and >=4 pushes; allocate: >=1 comparable pair with one job placed and one not"
+	out.Stats["rule"] = "one splitmix64 stream; after a fixed corpus (ties, elastic states, depth 0/1/2 witnesses; allocate: the depth-2 witness, and three clusters where two identical pending jobs that say preemptible, priority 125/100/99 and 50, compete for the last GPU of a queue whose quota a running non-preemptible job has taken): 40% PriorityQueue programs (push/pop/Fix(i)/re-prioritise-top+Fix(0), 4-36 ops then drained), 45% JobsOrderByQueues programs (2-6 leaf queues on 1-3 levels, 3-24 initial pushes, then pops / pushes / re-pushes with progress, then drained), 15% real allocate runs: 1-4 nodes of 2-8 GPUs, 1-2 departments (one in three with a GPU quota, one in four with a limit), 2-6 leaf queues with GPU quotas 0..half the cluster, one in three with a GPU limit at or just above its usage, some with cpu quotas / limits; running jobs first: in two of three queues non-preemptible running jobs use the queue's GPU quota fully (2 in 5), minus one, plus one or partly, plus preemptible running jobs over quota, at least a third of the cluster left free; 4-28 pending whole-GPU gang jobs from 2-3 templates, half of them in one hot queue and most of those of one template and one preemptibility; every job (running or pending) has spec.preemptibility preemptible / non-preemptible / unset, drawn independently of its priority (unset only when the priority alone gives the wanted preemptibility), so explicit-preemptible jobs at or above 100 and explicit-non-preemptible jobs below 100 are as frequent as the derived ones; priorities from {40,50,60,75,99,100,125} or, one in four, from the whole int32 range of a PriorityClass value (-2^31 .. 2^31-1, system classes included) plus 99 and 100; PQ/JO programs draw from {40,50,60,75,100,125} or the int32 range; every 4th queue program and every 5th allocate run uses a finite depth (label prefix finite-depth; checked like all others); a third of the generated allocate worlds carry 1-3 ghosts (ready pending pod groups, any namespace / priority / age / template: 3 in 5 of a queue that is not in the snapshot, 1 in 5 of a queue whose department is taken out of the session's queue map after the plugins opened, 1 in 5 of a department) and are run on 2-3 fresh sessions each (one case per round); corpus ghost worlds: the README world of seeded/C16-4 (one 1-GPU node, leaf queue with low/high resp. young/old, one ghost of a missing queue) 24 rounds per variant plus a 4-round control, and six more worlds (ghost in another namespace with top priority, two ghosts, ghost of a department, ghost of an orphan queue, two competing queues with three ghosts at unlimited depth and depth 2) 8 rounds each; every allocate run records what the real InitializeWithJobs + PopNextJob hand out and which jobs the action attempts, in order; comparable = same leaf queue, template, request and supposed preemptibility (explicit value, else derived from the priority as CalculatePreemptibility does; never PodGroupInfo.IsPreemptibleJob); every job of every stream (pending, with running pods, running, ghost) has a last-start state from its own PRNG stream, independent of everything else: none 3/8, 1-3 s before its own creation 1/8, 1-7 s after its creation (among the creation times of its competitors) 2/8, long after every creation 2/8, given through the real PodGroupInfo.SetPodGroup (annotation kai.scheduler/last-start-timestamp, RFC3339); corpus: the README pair of seeded/C16-5 and mirrors as PQ / JO programs and allocate worlds; non-trivial = PQ: >=3 pushes and >=2 pops; JO: jobs in >=2 queues and >=4 pushes; allocate: >=1 comparable pair with one job placed and one not"
 	return out.Flush()
 }
 
@@ -821,6 +942,15 @@ func corpus(out *u.Out) {
 	fixed(1, "depth1", []pqOp{push(j(1, 50, 0)), push(j(2, 100, 0)), push(j(3, 75, 0)), pop, pop})
 	fixed(0, "depth0", []pqOp{push(j(1, 50, 0)), pop})
 	fixed(3, "depth3-fifo", []pqOp{push(j(1, 50, 1)), push(j(2, 50, 5)), push(j(3, 50, 4)), push(j(4, 50, 2)), push(j(5, 50, 3)), pop, pop, pop, pop})
+	// last-start stamps (README pair of seeded/C16-5: the older job was started after the younger one was created,
+	// lost its pods and is pending again) and its mirrors: FIFO reads the creation time only
+	ls := func(js jobSpec, at int64) jobSpec { js.HasLS, js.LS = true, at; return js }
+	fixed(-1, "requeued-older-vs-fresh-younger", []pqOp{push(j(2, 50, 900)), push(ls(j(1, 50, 0), 1800)), pop, pop, pop})
+	fixed(-1, "fresh-older-vs-requeued-younger", []pqOp{push(ls(j(2, 50, 900), 1800)), push(j(1, 50, 0)), pop, pop, pop})
+	fixed(-1, "both-requeued-stamps-reversed", []pqOp{push(ls(j(2, 50, 900), 1000)), push(ls(j(1, 50, 0), 1800)), push(ls(j(3, 50, 950), -5)), pop, pop, pop})
+	fixed(-1, "same-creation-stamps-vs-uid", []pqOp{push(ls(j(1, 50, 7), 1800)), push(j(2, 50, 7)), push(ls(j(3, 50, 7), 3)), pop, pop, pop})
+	fixed(2, "depth2-requeued-oldest", []pqOp{push(j(2, 50, 900)), push(j(3, 50, 950)), push(ls(j(1, 50, 0), 1800)), pop, pop, pop})
+	fixed(-1, "requeued-with-running-pods", []pqOp{push(j(2, 50, 900, [2]int{1, 2})), push(ls(j(1, 50, 0, [2]int{1, 2}), 1800)), push(ls(j(3, 50, 5, [2]int{0, 2}), 1800)), pop, pop, pop})
 
 	// the same witness through JobsOrderByQueues, two queues competing
 	qs := []queueSpec{{ID: 1}, {ID: 2, Parent: 1, Leaf: true}, {ID: 3, Parent: 1, Leaf: true}}
@@ -837,4 +967,11 @@ func corpus(out *u.Out) {
 	qs3 := []queueSpec{{ID: 1}, {ID: 2, Parent: 1}, {ID: 3, Parent: 2, Leaf: true}, {ID: 4, Parent: 2, Leaf: true}, {ID: 5, Parent: 1, Leaf: true}}
 	prog3 := []joOp{jq(1, 3, 50), jq(2, 4, 75), jq(3, 5, 60), jq(4, 3, 100), {}, {}, jq(5, 5, 125), {}, {}, {}, {}}
 	emitJO(out, "corpus:three-levels", qs3, -1, prog3, RunJO(qs3, -1, prog3))
+	// the README pair of seeded/C16-5 in queue 2, queue 3 competing
+	jl := func(uid, q int, ct int64, has bool, at int64) joOp {
+		return joOp{Push: true, Job: jobSpec{UID: uid, Queue: q, Prio: 50, CTime: ct, Sub: [][2]int{{0, 1}}, HasLS: has, LS: at}}
+	}
+	prog4 := []joOp{jl(2, 2, 900, false, 0), jl(3, 3, 600, false, 0), jl(1, 2, 0, true, 1800), {}, {}, {}, {}}
+	emitJO(out, "corpus:requeued-older-vs-fresh-younger", qs, -1, prog4, RunJO(qs, -1, prog4))
+	emitJO(out, "corpus:requeued-older-vs-fresh-younger", qs, 1, prog4, RunJO(qs, 1, prog4))
 }
